@@ -756,7 +756,12 @@ _GUARD_SHAPES = {
 }
 
 
-def _norm_guard(test: ast.AST) -> str:
+RP_FILE, RP_CLASS = "pyxel/detectors/readout_properties.py", "ReadoutProperties"
+# a refusal that can never fire on a schedule given as a flat list (the model's schedules are lists)
+_HARMLESS_GUARDS = {"T.ndim != 1", "np.ndim(T) != 1", "T.ndim > 1", "not T.ndim == 1"}
+
+
+def _norm_guard(test: ast.AST, aliases=()) -> str:
     class T(ast.NodeTransformer):
         def visit_Attribute(s, n):  # noqa: N802, N805
             if isinstance(n.value, ast.Name) and n.value.id == "self" and n.attr in ("_times", "times"):
@@ -766,6 +771,8 @@ def _norm_guard(test: ast.AST) -> str:
             return s.generic_visit(n)
 
         def visit_Name(s, n):  # noqa: N802, N805
+            if n.id in aliases:
+                return ast.Name(id="T", ctx=ast.Load())
             return ast.Name(id="S", ctx=ast.Load()) if n.id == "start_time" else n
 
     import copy
@@ -787,20 +794,35 @@ def _chain(st: ast.If):
             return links, st.orelse
 
 
-def readout_guards(repo: Path) -> dict:
-    """The refusals of Readout.__init__ that concern the schedule: which of the three guards are present, and
-    whether an empty `times` is refused before them.  Any other refusal that mentions the times / start time is
-    a shape this translator does not know: fail closed."""
+def _array_aliases(fn) -> set:
+    """`times` and the locals that hold it as an array (`times_1d = np.array(times, dtype=float)`)."""
+    out = {"times"}
+    for st in fn.body:
+        if isinstance(st, (ast.Assign, ast.AnnAssign)) and isinstance(st.value, ast.Call):
+            tg = st.targets[0] if isinstance(st, ast.Assign) else st.target
+            if isinstance(tg, ast.Name) and (dotted(st.value.func) or "").split(".")[-1] in ("array", "asarray", "asanyarray") \
+                    and st.value.args and isinstance(st.value.args[0], ast.Name) and st.value.args[0].id in out:
+                out.add(tg.id)
+    return out
+
+
+def readout_guards(repo: Path, file=None, cls=None, local_aliases=False) -> dict:
+    """The refusals of Readout.__init__ (or, with file / cls, of the detector's ReadoutProperties.__init__, which
+    every run goes through again) that concern the schedule: which of the three guards are present, and whether
+    an empty `times` is refused before them.  Any other refusal that mentions the times / start time is a shape
+    this translator does not know: fail closed."""
     from .common import body_no_doc, find_func
 
+    READOUT_FILE, READOUT_CLASS = file or globals()["READOUT_FILE"], cls or globals()["READOUT_CLASS"]
     tree = parse(repo, READOUT_FILE)
     fn = find_func(tree, "__init__", cls=READOUT_CLASS)
+    aliases = _array_aliases(fn) if local_aliases else ()
     guards, empty_refused = [], False
     for st in body_no_doc(fn):
         if not isinstance(st, ast.If):
             continue
         links, orelse = _chain(st)
-        tests = [_norm_guard(t) for t, _ in links]
+        tests = [_norm_guard(t, aliases) for t, _ in links]
         mentions_schedule = any(("T" in {n.id for n in ast.walk(ast.parse(t, mode="eval")) if isinstance(n, ast.Name)}
                                  or "S" in {n.id for n in ast.walk(ast.parse(t, mode="eval")) if isinstance(n, ast.Name)})
                                 for t in tests)
@@ -814,6 +836,8 @@ def readout_guards(repo: Path) -> dict:
         for (test, body), text in zip(links, tests):
             if not _ends_with_raise(body):
                 raise TranslationError(f"{READOUT_FILE}:{test.lineno}: a branch on the readout times that does not raise: {text}")
+            if text in _HARMLESS_GUARDS:
+                continue
             kind = next((k for k, shapes in _GUARD_SHAPES.items() if text in shapes), None)
             if kind is None:
                 raise TranslationError(f"{READOUT_FILE}:{test.lineno}: readout guard of an unknown shape: {text}")
@@ -890,7 +914,9 @@ def render(st: dict) -> str:
     L.append("].\n")
     L.append("(* the schedule refusals of Readout.__init__ *)")
     L.append("Definition readout_guards : list sguard := [" + "; ".join(st["readout"]["guards"]) + "].")
-    L.append(f"Definition readout_empty_refused : bool := {'true' if st['readout']['empty_refused'] else 'false'}.\n")
+    L.append(f"Definition readout_empty_refused : bool := {'true' if st['readout']['empty_refused'] else 'false'}.")
+    L.append("(* the same refusals in ReadoutProperties.__init__, through which Detector.set_readout passes every run *)")
+    L.append("Definition detector_readout_guards : list sguard := [" + "; ".join(st["readout_rp"]["guards"]) + "].\n")
     L.append("Definition rate_table : list rate_row := [")
     rows = []
     for r in st["rows"]:
@@ -916,7 +942,7 @@ def translate_struct(repo: Path) -> dict:
     # an excluded entry whose function disappeared or stopped reading the clock is harmless (kept in the table);
     # an integrating model must still exist - whether it still uses the time step is decided by its rows below
     sym = Sym(repo)
-    st = dict(readout=readout_guards(repo), readers=readers, integrating=[], expr_models=[], excluded=[], rows=[], models={},
+    st = dict(readout=readout_guards(repo), readout_rp=readout_guards(repo, RP_FILE, RP_CLASS, True), readers=readers, integrating=[], expr_models=[], excluded=[], rows=[], models={},
               family=life.detector_family(repo), loops=life.readout_loops(repo))
     for key in sorted(CLASSIFICATION):
         c = CLASSIFICATION[key]
